@@ -71,11 +71,29 @@ func globalRoot(v ssa.Value, depth int) *ssa.Global {
 	return nil
 }
 
+type objPoint struct {
+	val ssa.Value
+	pat string
+}
+
+// outsideScope: v is computed outside the scanned scope (a parameter, a constant, or an
+// instruction that is not part of it).
+func outsideScope(v ssa.Value, inScope func(ssa.Instruction) bool) bool {
+	switch x := v.(type) {
+	case *ssa.Parameter, *ssa.Const, *ssa.Global, *ssa.FreeVar:
+		return true
+	case ssa.Instruction:
+		return !inScope(x)
+	}
+	return false
+}
+
 type writeScanner struct {
 	paramGlobal map[*ssa.Parameter]*ssa.Global // parameters that receive a value derived from a package-level variable
 	globals     []globalWrite
 	fieldPoints []*ssa.FieldAddr // fields written through pointers computed outside the scope
 	slicePoints []ssa.Value      // slices (computed outside the scope) whose elements are written
+	objPoints   []objPoint       // objects (computed outside the scope) that a callee under contract may write, per component pattern
 	points      []ssa.Value      // addresses of single cells written (values of the enclosing frame)
 	pointOK     bool             // collect point writes (only when scanning the blocks of the frame itself)
 	e           *Engine
@@ -307,6 +325,9 @@ func (ws *writeScanner) scanIns(ins ssa.Instruction, inScope func(ssa.Instructio
 			}
 			keys["*"] = true
 			return
+		case strings.HasPrefix(name, "github.com/lunixbochs/struc.Pack"):
+			keys["T:bytes.Buffer"] = true
+			return
 		case strings.HasPrefix(name, "(*bytes.Buffer).Write"), name == "(*text/template.Template).Execute":
 			// writes the buffer object (its buf field and backing array)
 			wi := 0
@@ -324,9 +345,30 @@ func (ws *writeScanner) scanIns(ins ssa.Instruction, inScope func(ssa.Instructio
 			for _, cl := range c.byKind("assigns") {
 				for _, item := range splitTop(cl.Expr, ',') {
 					item = strings.TrimSpace(item)
-					if item != "" && item != "nothing" {
-						keys["P:"+item] = true
+					if item == "" || item == "nothing" {
+						continue
 					}
+					pname, pat := assignsItem(item)
+					if pname != "" {
+						// only the object passed for that parameter is written
+						done := false
+						for i, prm := range f.Params {
+							if prm.Name() != pname || i >= len(cc.Args) {
+								continue
+							}
+							a := cc.Args[i]
+							if ws.isFreshRoot(a, inScope, paramFresh, 0) {
+								done = true // an object created in the scope itself
+							} else if ws.pointOK && paramFresh == nil && outsideScope(a, inScope) {
+								ws.objPoints = append(ws.objPoints, objPoint{a, pat})
+								done = true
+							}
+						}
+						if done {
+							continue
+						}
+					}
+					keys["P:"+pat] = true
 				}
 			}
 			return
@@ -425,6 +467,7 @@ func (e *Engine) modSet(fr *frame, li *loopInfo) (keys map[string]bool, all bool
 	li.points = ws.points
 	li.fieldPoints = ws.fieldPoints
 	li.slicePoints = ws.slicePoints
+	li.objPoints = ws.objPoints
 	return ws.keys, false
 }
 
@@ -642,6 +685,11 @@ func (e *Engine) enterLoop(fr *frame, li *loopInfo, reach string, heap Heap, con
 			// every value ever stored in this slice variable starts at offset 0 of its backing array
 			fv = SliceVal{sv.Arr, bvLit(0, 64), sv.Len}
 		}
+		if nv, ok := fv.(SliceVal); ok && cellAllocOnly(pv, map[ssa.Value]bool{}) {
+			// every value ever stored in this variable is nil or a slice allocated by this execution
+			// (make, append): its backing array is no object of the pre-state
+			e.sc.assume(or(eq(nv.Arr, bvLit(0, 32)), app("bvuge", nv.Arr, bvLit(0x80000000, 32))))
+		}
 		if nv, ok := fv.(SliceVal); ok && appendOnlyInLoop(pv, li) {
 			if ov, ok := e.load(h, e.asPtr(addr, pv.Type()), et).(SliceVal); ok {
 				e.assumePrefix(fr, li, keys, h, reach, under(et).(*types.Slice).Elem(), nv, ov)
@@ -649,6 +697,45 @@ func (e *Engine) enterLoop(fr *frame, li *loopInfo, reach string, heap Heap, con
 		}
 		e.store(h, e.asPtr(addr, pv.Type()), et, fv)
 		e.guard = saveG
+	}
+	// objects written by callees under contract (assigns param->Pattern) through loop-invariant
+	// references: havoc the matching components of those objects only
+	for _, op := range li.objPoints {
+		v, ok := fr.vals[op.val]
+		ref, okr := "", false
+		if ok {
+			switch x := v.(type) {
+			case Sc:
+				if x.S == SRef {
+					ref, okr = x.T, true
+				}
+			case PtrVal:
+				if len(x.Path) == 0 {
+					ref, okr = x.Base, true
+				}
+			case SliceVal:
+				ref, okr = x.Arr, true
+			}
+		}
+		if !okr {
+			keys["P:"+op.pat] = true
+			continue
+		}
+		var ks []string
+		for _, k := range e.compOrder {
+			ks = append(ks, k)
+		}
+		for _, k := range ks {
+			if componentMatches(k, op.pat) && !e.inModSet(keys, k) {
+				cp := e.comps[k]
+				fresh := e.sc.declare("Hloopobj_"+k, cp.sort)
+				cur := e.heapGet(h, cp)
+				h[k] = e.sc.define("Hl_"+k, cp.sort, sto(cur, ref, ite(reach, sel(fresh, ref), sel(cur, ref))))
+				if !e.isFresh(ref) {
+					e.dirty[k] = true
+				}
+			}
+		}
 	}
 	// fields written through loop-invariant pointers: havoc that field of that object only
 	for _, fa := range li.fieldPoints {
@@ -944,8 +1031,8 @@ func (e *Engine) assumePrefix(fr *frame, li *loopInfo, keys map[string]bool, h H
 		cur := e.heapGet(h, c)
 		i := e.sc.freshName("pi")
 		body := implies(and(reach, app("bvsle", bvLit(0, 64), i), app("bvslt", i, ov.Len)),
-			eq(sel(sel(cur, nv.Arr), app("bvadd", nv.Off, i)), sel(sel(cur, ov.Arr), app("bvadd", ov.Off, i))))
-		e.sc.addTagged(tag, fmt.Sprintf("(assert (forall ((%s %s)) %s))", i, SI64, body))
+			eq(sel(sel(cur, nv.Arr), e.sc.addS(nv.Off, i)), sel(sel(cur, ov.Arr), e.sc.addS(ov.Off, i))))
+		e.sc.addTagged(tag, fmt.Sprintf("(assert (forall ((%s %s)) (! %s :pattern (%s))))", i, SI64, body, sel(sel(cur, nv.Arr), e.sc.addS(nv.Off, i))))
 	})
 	e.warnOnce("append-only slice variables: inside a loop they keep the elements they had at loop entry (assumed from the semantics of append; checked syntactically: every assignment in the loop is v = append(v, ...), no element of that slice type is written in place)")
 }
@@ -1046,6 +1133,70 @@ func appendOnlyInLoop(pv ssa.Value, li *loopInfo) bool {
 		}
 	}
 	return true
+}
+
+// cellAllocOnly: pv is a local slice variable cell and every value stored into it (here or in the
+// closures that capture it) is nil, a make or an append result, or a copy of such a variable.
+func cellAllocOnly(pv ssa.Value, seen map[ssa.Value]bool) bool {
+	if seen[pv] {
+		return true
+	}
+	seen[pv] = true
+	al, ok := pv.(*ssa.Alloc)
+	if !ok || al.Referrers() == nil {
+		return false
+	}
+	var valOK func(v ssa.Value) bool
+	valOK = func(v ssa.Value) bool {
+		switch x := v.(type) {
+		case *ssa.Const:
+			return x.Value == nil
+		case *ssa.MakeSlice:
+			return true
+		case *ssa.Call:
+			if b, ok := x.Call.Value.(*ssa.Builtin); ok && b.Name() == "append" {
+				return true
+			}
+		case *ssa.Phi:
+			for _, ed := range x.Edges {
+				if ed != v && !valOK(ed) {
+					return false
+				}
+			}
+			return true
+		case *ssa.UnOp:
+			if x.Op == token.MUL {
+				return cellAllocOnly(x.X, seen)
+			}
+		}
+		return false
+	}
+	var cellOK func(cell ssa.Value, refs []ssa.Instruction) bool
+	cellOK = func(cell ssa.Value, refs []ssa.Instruction) bool {
+		for _, r := range refs {
+			switch x := r.(type) {
+			case *ssa.Store:
+				if x.Addr != cell || !valOK(x.Val) {
+					return false
+				}
+			case *ssa.UnOp, *ssa.DebugRef:
+			case *ssa.MakeClosure:
+				fn := x.Fn.(*ssa.Function)
+				for i, b := range x.Bindings {
+					if b == cell {
+						fvr := fn.FreeVars[i]
+						if fvr.Referrers() != nil && !cellOK(fvr, *fvr.Referrers()) {
+							return false
+						}
+					}
+				}
+			default:
+				return false
+			}
+		}
+		return true
+	}
+	return cellOK(al, *al.Referrers())
 }
 
 // cellOffZero: pv is a local variable cell (Alloc) of slice type and every store to it,
